@@ -420,7 +420,7 @@ Lemma np_local_time_tt abbrs t ty : no_precond (local_time_tt abbrs t ty).
 Proof. unfold local_time_tt; np. Qed.
 Lemma np_local_time_tr z t tr : no_precond (local_time_tr z t tr).
 Proof. unfold local_time_tr; np. Qed.
-Lemma np_equiv_transitions types i1 i2 : no_precond (equiv_transitions types i1 i2).
+Lemma np_equiv_transitions abbrs types i1 i2 : no_precond (equiv_transitions abbrs types i1 i2).
 Proof. unfold equiv_transitions; np. Qed.
 #[local] Hint Resolve np_local_time_tt np_local_time_tr np_equiv_transitions : np.
 
